@@ -890,7 +890,11 @@ class Analysis:
                         continue
                     old = st.get(key, self.read_place_key(st, key))
                     if old is not None:
-                        m = meet(old, (1, old[1]))
+                        # a power of two is at least 1 and at most the largest power of two in the range
+                        hi = 1 << (old[1].bit_length() - 1) if old[1] >= 1 else 0
+                        lo = max(old[0], 1)
+                        lo = 1 << (lo - 1).bit_length()
+                        m = meet(old, (lo, hi)) if lo <= hi else 'empty'
                         if m == 'empty':
                             return None
                         st[key] = m
